@@ -348,7 +348,7 @@ def clean_previous_run_locks(args):
     # are saved: otherwise a run killed early and continued with --resume would trust the previous run's data
     for sample in args.input_data.samples:
         lock_files = [sample.out_raw_file + "_lock", sample.read_group_file + "_lock"]
-        lock_files += glob.glob(sample.out_raw_file + "_*_collected") + glob.glob(sample.out_raw_file + "_*_processed")
+        lock_files += glob.glob(glob.escape(sample.out_raw_file) + "_*_collected") + glob.glob(glob.escape(sample.out_raw_file) + "_*_processed")
         for lock_file in lock_files:
             if os.path.exists(lock_file):
                 os.remove(lock_file)
